@@ -49,6 +49,45 @@ def seqs_after(func, start_block, start_idx, field_map, stop):
     return out
 
 
+def field_fidelity(db, rep, rule="D2-FIELD-FIDELITY"):
+    """the constructors through which bytecode (and old-style generated C) rebuild arrays store size and alignment as given."""
+    # ---- D2c: the constructors the decoder goes through store size and alignment unchanged ------------
+    # The decoder rebuilds arrays with orc_program_add_{source,destination}_full (program, size, name, type, alignment).
+    # What the encoder wrote must come back: the stored size is the size parameter; the stored alignment is the alignment
+    # parameter, except for the documented default (alignment 0 -> size), decided by finite evaluation of the guard.
+    from exprval import admitted as _adm
+    from flow import Facts as _F
+    for ctor in ("orc_program_add_source_full", "orc_program_add_destination_full"):
+        g = db.func(ctor, "orcprogram")
+        rep.saw(g)
+        pn = [p_["name"] for p_ in g.params]
+        if len(pn) != 5:
+            raise AnalysisBroken("%s: expected 5 parameters" % ctor)
+        SZ, AL = pn[1], pn[4]
+        fcg = _F(g)
+        for field, par in (("size", SZ), ("alignment", AL)):
+            sts = [n for n in g.walk() if n.k == "BinaryOperator" and n.op == "=" and strip_casts(n.c[0]).k == "MemberExpr" and strip_casts(n.c[0]).name == field]
+            if len(sts) != 1:
+                raise AnalysisBroken("%s: expected one store to .%s" % (ctor, field))
+            ok = unparse(strip_casts(sts[0].c[1])) == par
+            redefs = [n for n in g.walk() if n.k in ("BinaryOperator", "CompoundAssignOperator") and n.op in ASSIGN_OPS_ and access_path(n.c[0]) == par]
+            bad = []
+            for r_ in redefs:
+                if field == "alignment" and r_.op == "=" and unparse(strip_casts(r_.c[1])) == SZ:
+                    got, rel = _adm(fcg.conds(r_), (AL, SZ), (0, 1, 2, 4, 8, 16))
+                    want = {(a_, s_) for a_ in (0, 1, 2, 4, 8, 16) for s_ in (0, 1, 2, 4, 8, 16) if a_ == 0}
+                    if got != want:
+                        ex = sorted(got - want)[:1] or sorted(want - got)[:1]
+                        bad.append("`%s` under %s (e.g. alignment=%s size=%s)" % (unparse(r_), [unparse(x[0]) for x in rel], ex[0][0], ex[0][1]))
+                else:
+                    bad.append("`%s`" % unparse(r_))
+            rep.check(ok and not bad, rule, where(g), "%s.%s" % (ctor.replace("orc_program_add_", ""), field),
+                      "the decoded %s is stored as given%s" % (field, " (0 selects the element size)" if field == "alignment" else ""),
+                      "%s does not store the %s it is given: %s -- an array whose %s was serialised comes back from the bytecode with a different one" %
+                      (ctor, field, "; ".join(bad) if bad else "stored expression is `%s`" % unparse(sts[0].c[1]), field), line=sts[0].line)
+
+
+
 def run(ctx):
     db = ctx.db()
     rep = ctx.report
@@ -304,40 +343,48 @@ def run(ctx):
               "highest opcode byte is %d < 255 (decoder reads it with the escape-aware get_int)" % (31 + len(names)),
               "%d opcodes no longer fit below the 255 escape byte" % len(names))
 
-    # ---- D2c: the constructors the decoder goes through store size and alignment unchanged ------------
-    # The decoder rebuilds arrays with orc_program_add_{source,destination}_full (program, size, name, type, alignment).
-    # What the encoder wrote must come back: the stored size is the size parameter; the stored alignment is the alignment
-    # parameter, except for the documented default (alignment 0 -> size), decided by finite evaluation of the guard.
-    from exprval import admitted as _adm
-    from flow import Facts as _F
-    for ctor in ("orc_program_add_source_full", "orc_program_add_destination_full"):
-        g = db.func(ctor, "orcprogram")
-        rep.saw(g)
-        pn = [p_["name"] for p_ in g.params]
-        if len(pn) != 5:
-            raise AnalysisBroken("%s: expected 5 parameters" % ctor)
-        SZ, AL = pn[1], pn[4]
-        fcg = _F(g)
-        for field, par in (("size", SZ), ("alignment", AL)):
-            sts = [n for n in g.walk() if n.k == "BinaryOperator" and n.op == "=" and strip_casts(n.c[0]).k == "MemberExpr" and strip_casts(n.c[0]).name == field]
-            if len(sts) != 1:
-                raise AnalysisBroken("%s: expected one store to .%s" % (ctor, field))
-            ok = unparse(strip_casts(sts[0].c[1])) == par
-            redefs = [n for n in g.walk() if n.k in ("BinaryOperator", "CompoundAssignOperator") and n.op in ASSIGN_OPS_ and access_path(n.c[0]) == par]
-            bad = []
-            for r_ in redefs:
-                if field == "alignment" and r_.op == "=" and unparse(strip_casts(r_.c[1])) == SZ:
-                    got, rel = _adm(fcg.conds(r_), (AL, SZ), (0, 1, 2, 4, 8, 16))
-                    want = {(a_, s_) for a_ in (0, 1, 2, 4, 8, 16) for s_ in (0, 1, 2, 4, 8, 16) if a_ == 0}
-                    if got != want:
-                        ex = sorted(got - want)[:1] or sorted(want - got)[:1]
-                        bad.append("`%s` under %s (e.g. alignment=%s size=%s)" % (unparse(r_), [unparse(x[0]) for x in rel], ex[0][0], ex[0][1]))
-                else:
-                    bad.append("`%s`" % unparse(r_))
-            rep.check(ok and not bad, "D2-FIELD-FIDELITY", where(g), "%s.%s" % (ctor.replace("orc_program_add_", ""), field),
-                      "the decoded %s is stored as given%s" % (field, " (0 selects the element size)" if field == "alignment" else ""),
-                      "%s does not store the %s it is given: %s -- an array whose %s was serialised comes back from the bytecode with a different one" %
-                      (ctor, field, "; ".join(bad) if bad else "stored expression is `%s`" % unparse(sts[0].c[1]), field), line=sts[0].line)
+    field_fidelity(db, rep)
+
+    # ---- D2d: the short constant form is chosen only where the decoder reproduces the value ------------
+    # ORC_BC_ADD_CONSTANT carries 32 bits and the decoder hands them to orc_program_add_constant (int value), i.e. it
+    # reconstructs sign_extend_32 (low word).  The guard under which the encoder emits that tag must therefore admit only
+    # constants of size <= 4 (whose upper half is immaterial) or values equal to their own sign extension; decided by finite
+    # evaluation of the guard over sizes {1,2,4,8} x probe values.
+    from exprval import admitted as _adm2, variables as _vars2
+    from flow import Facts as _F2
+    fce2 = _F2(enc)
+    tagv = enums.get("ORC_BC_ADD_CONSTANT")
+    sites = [c for c in enc.calls("bytecode_append_code") if strip_casts(c.args()[1]).v == tagv]
+    if not sites:
+        raise AnalysisBroken("encoder: emission of ORC_BC_ADD_CONSTANT not found")
+    PROBE = (0, 1, 2, 4, 8, 0x7fffffff, 0x80000000, 0xffffffff, -1, -2147483648, 0x100000000, 0x123456789)
+    for c in sites:
+        conds = fce2.conds(c)
+        vs = set()
+        for x in conds:
+            if x[0] != "switch":
+                vs |= _vars2(x[0])
+        SZ = sorted(v for v in vs if v.endswith("->size") or v.endswith(".size"))
+        VL = sorted(v for v in vs if v.endswith("value.i"))
+        if len(SZ) != 1:
+            raise AnalysisBroken("encoder: size variable of the constant not identified (%s)" % sorted(vs))
+        keys = (SZ[0],) + ((VL[0],) if VL else ())
+        got, rel = _adm2(conds, keys, PROBE)
+        bad = []
+        for t in sorted(got):
+            size = t[0]
+            if size not in (1, 2, 4, 8):
+                continue
+            vals = (t[1],) if len(t) > 1 else PROBE
+            for v in vals:
+                low = v & 0xffffffff
+                sext = low - (1 << 32) if low & 0x80000000 else low
+                if size > 4 and sext != v:
+                    bad.append((size, v))
+        rep.check(not bad, "D2-CONST-TAG", where(enc), "ADD_CONSTANT-guard",
+                  "the 32-bit constant tag is emitted only for constants the decoder reproduces",
+                  "the encoder emits the 32-bit ORC_BC_ADD_CONSTANT form for e.g. a %d-byte constant %#x (guards: %s); the decoder rebuilds it as "
+                  "sign_extend_32(low word), a different value" % ((bad[0] if bad else (0, 0)) + ([unparse(x[0]) for x in rel],)), line=c.line)
 
     # ---- D4 integer codecs ---------------------------------------------------
     def shifts_enc(fname):
